@@ -350,6 +350,9 @@ type RTx struct {
 	// FreeLeaves (with NewSize >= old size + 2, no spill): the appended pages except the last are free-list leaves
 	// that SQLite never writes; the last appended page reaches the file as a zero page when the commit extends it.
 	FreeLeaves bool
+	// FirstNew (with FreeLeaves): the first FirstNew appended pages are ordinary new pages and are written; the
+	// unwritten leaves come after them.
+	FirstNew int
 	// SpillNew (with Create): the first transaction is larger than the page cache: SpillNew of its new pages other
 	// than page 1 - which stays pinned for the whole write transaction - are written to the still empty file by a
 	// cache spill before the commit writes page 1 and the rest.
@@ -683,7 +686,7 @@ func (c *Conn) RunRTx(tx RTx, cur *oracle.Image) (res RTxResult) {
 			dirty[p] = make([]byte, c.PageSize) // never written; placeholder
 			continue
 		}
-		if tx.FreeLeaves {
+		if tx.FreeLeaves && int(p-origSize) > tx.FirstNew {
 			// free-list leaves allocated and freed inside the transaction are never written (PGHDR_DONT_WRITE); at
 			// commit the file is extended to the new size by one zero page at its end. Readers see zeros.
 			if p < newSize {
